@@ -164,9 +164,9 @@ def step (st : St) (ts : List String) : St × String :=
   | ["contains", h] => match unhex h with
     | some p => qry st fun r => b2s (indexOf r.view p 0).isSome | none => (st, "bad-op")
   | ["starts", h] => match unhex h with
-    | some p => qry st fun r => b2s (r.len ≥ p.length && strncmp p.length r.view p == 0) | none => (st, "bad-op")
+    | some p => qry st fun r => b2s (r.startsWith p) | none => (st, "bad-op")
   | ["ends", h] => match unhex h with
-    | some p => qry st fun r => b2s (r.len ≥ p.length && strncmp p.length (r.view.drop (r.len - p.length)) p == 0)
+    | some p => qry st fun r => b2s (r.endsWith p)
     | none => (st, "bad-op")
   | ["startsc", c] => match byte? c with
     | some c => qry st fun r => b2s (r.buf.getD 0 0 == c) | none => (st, "bad-op")
